@@ -153,6 +153,101 @@ func c38GenWalk(r *Rng, nups int) string {
 	}
 }
 
+// c38GenCX: one cell of the CopyObject option cross product (random sampling: every pair of
+// parameters meets in all value combinations within a few hundred operations)
+func c38GenCX(r *Rng) string {
+	mask := func() int {
+		switch r.Intn(5) {
+		case 0:
+			return 0
+		case 1:
+			return 1 << r.Intn(8) // one field alone
+		case 2:
+			return 255
+		}
+		return r.Intn(256)
+	}
+	sb, sk, db, dk := r.Intn(2), r.Intn(4), r.Intn(2), r.Intn(4)
+	if r.Chance(85) && sb == db && sk == dk {
+		dk = (dk + 1) % 4
+	}
+	omask := mask()
+	if omask&32 != 0 && r.Chance(20) {
+		omask |= 256 // Expires in RFC 850 spelling
+	}
+	metanil := 0
+	if omask&254 == 0 && r.Bool() {
+		metanil = 1
+	}
+	cls := func() int {
+		if r.Chance(50) {
+			return 0
+		}
+		return 1 + r.Intn(3)
+	}
+	return fmt.Sprintf("CX,%d,%d,%d,%d,%d,%d,%d,%d,%d,%d,%d,%d,%d", sb, sk, db, dk, mask(), r.Intn(2), cls(), r.Intn(2), omask, metanil, r.Intn(2), r.Intn(2), cls())
+}
+
+// c38GenMFX: upload some of the parts 1..4 and complete with a manifest: none, exact ascending,
+// permuted, with a duplicate, with a gap, with a part that was never uploaded, wrong / empty ETag
+func c38GenMFX(r *Rng) string {
+	upmask := []int{1, 3, 7, 15}[r.Intn(4)]
+	if r.Chance(20) {
+		upmask = 1 + r.Intn(15) // part numbers with a hole: the storage refuses to complete
+	}
+	if r.Chance(5) {
+		upmask = 0
+	}
+	var ups []int
+	for p := 1; p <= 4; p++ {
+		if upmask&(1<<(p-1)) != 0 {
+			ups = append(ups, p)
+		}
+	}
+	man := []string{}
+	for _, p := range ups {
+		man = append(man, fmt.Sprintf("%d:0", p))
+	}
+	shape := r.Intn(9)
+	switch {
+	case shape == 0 || len(man) == 0:
+		if r.Bool() || len(man) == 0 {
+			man = nil // no manifest
+		}
+	case shape == 1 && len(man) > 1: // reversed
+		for i, j := 0, len(man)-1; i < j; i, j = i+1, j-1 {
+			man[i], man[j] = man[j], man[i]
+		}
+	case shape == 2 && len(man) > 1: // one swap (1,3,2)
+		i := r.Intn(len(man) - 1)
+		man[i], man[i+1] = man[i+1], man[i]
+	case shape == 3: // duplicate
+		i := r.Intn(len(man))
+		man = append(man[:i+1], man[i:]...)
+	case shape == 4 && len(man) > 1: // gap: drop one uploaded part
+		i := r.Intn(len(man))
+		man = append(append([]string{}, man[:i]...), man[i+1:]...)
+	case shape == 5: // a part that was never uploaded
+		p := 1 + r.Intn(5)
+		man = append(man, fmt.Sprintf("%d:0", p))
+	case shape == 6: // wrong ETag on one part
+		i := r.Intn(len(man))
+		man[i] = strings.Replace(man[i], ":0", ":1", 1)
+	case shape == 7: // empty ETag on one part
+		i := r.Intn(len(man))
+		man[i] = strings.Replace(man[i], ":0", ":2", 1)
+	}
+	ms := "-"
+	if len(man) > 0 {
+		ms = strings.Join(man, "/")
+	}
+	cond := 0
+	if r.Chance(15) {
+		cond = 1 + r.Intn(2)
+	}
+	return fmt.Sprintf("MFX,%d,%d,%d,%s,%d,%d", r.Intn(2), r.Intn(4), upmask, ms, cond, r.Intn(2))
+}
+
 func (c38) Gen(r *Rng, tier string, n int) []string {
 	out := make([]string, 0, n)
 	for i := 0; i < n; i++ {
@@ -160,6 +255,18 @@ func (c38) Gen(r *Rng, tier string, n int) []string {
 		dirty := i%2 == 1
 		nver, nups := 0, 0
 		ops := []string{"H"}
+		if i%5 == 4 {
+			// cross-product history: only the self-contained composite operations
+			for j, m := 0, 6+g.Intn(8); j < m; j++ {
+				if g.Chance(65) {
+					ops = append(ops, c38GenCX(g))
+				} else {
+					ops = append(ops, c38GenMFX(g))
+				}
+			}
+			out = append(out, strings.Join(ops, " "))
+			continue
+		}
 		if i%4 >= 2 {
 			// listing-centred history: populate (several versions and delete markers per key in the
 			// versioned bucket, several keys in the plain one, a multipart upload with parts), then
@@ -256,10 +363,24 @@ func c38Explain(f []string, field string, cm, dm map[string]string) string {
 	if c38NI(f) {
 		return "C38-not-implemented-ops"
 	}
-	if (base == "err") && strings.HasPrefix(cv, "Api(") && dv != "" {
+	if (base == "err" || (op == "MFX" && base == "kind")) && strings.HasPrefix(cv, "Api(") && c38UnmappedPair(strings.TrimSuffix(strings.TrimPrefix(cv, "Api("), ")"), dv) {
 		return "C38-error-code-not-mapped"
 	}
 	switch op {
+	case "CX":
+		if c38CXSelfRejected(f) {
+			return "C38-self-copy-rejected"
+		}
+		if field == "ptags" && c38N(f, 11) == 1 {
+			return "C38-copy-tagging-directive-dropped"
+		}
+		if field == "pexp" && c38N(f, 9)&256 != 0 && c38N(f, 8) == 1 && c38N(f, 10) == 0 && cv == "A" && dv == "R" {
+			return "C38-expires-rewritten"
+		}
+	case "MFX":
+		if c38N(f, 5) != 0 {
+			return "C38-complete-conditions-dropped"
+		}
 	case "P":
 		if field == "ver" && cv == "~" {
 			return "C38-put-version-id-lost"
@@ -353,6 +474,28 @@ func c38Explain(f []string, field string, cm, dm map[string]string) string {
 	return ""
 }
 
+// c38UnmappedPair: the client returned the raw API error with code x where the storage reports kind dv —
+// the same error, only not translated into the storage error kind (finding C38-error-code-not-mapped).
+// A DIFFERENT error (another code than the storage's kind) is not covered.
+func c38UnmappedPair(x, dv string) bool {
+	if x == dv {
+		return true
+	}
+	switch x {
+	case "NotFound", "MethodNotAllowed":
+		// body-less 404 / 405 answers of the server for delete markers and missing keys
+		return dv == "DeleteMarker" || dv == "NoSuchKey" || dv == "MethodNotAllowed" || dv == "NoSuchBucket"
+	case "InternalError":
+		// storage errors without an S3 error code
+		return strings.HasPrefix(dv, "Err(")
+	}
+	return false
+}
+
+func c38CXSelfRejected(f []string) bool {
+	return c38N(f, 1)%2 == c38N(f, 3)%2 && c38N(f, 2)%4 == c38N(f, 4)%4 && c38N(f, 8) == 0 && c38N(f, 13) == 0
+}
+
 // c38Taints: operations after which the two stacks legitimately hold different STATES because of a
 // known defect; every later difference in the history is attributed to it.
 func c38Taints(f []string) string {
@@ -439,6 +582,22 @@ func c38Tags(ops []string) []string {
 			clean = false
 		}
 		switch f[0] {
+		case "CX":
+			tags["cross:copy"] = true
+			if c38CXSelfRejected(f) {
+				tags["kf:C38-self-copy-rejected"] = true
+			}
+			if c38N(f, 11) == 1 {
+				tags["kf:C38-copy-tagging-directive-dropped"] = true
+			}
+			if c38N(f, 9)&256 != 0 {
+				tags["kf:C38-expires-rewritten"] = true
+			}
+		case "MFX":
+			tags["cross:manifest"] = true
+			if c38N(f, 5) != 0 {
+				tags["kf:C38-complete-conditions-dropped"] = true
+			}
 		case "P":
 			tags["kf:C38-put-version-id-lost"] = true
 		case "H", "G":
